@@ -1297,6 +1297,9 @@ class _IterativeEvalTracker:
             self._ns.todo = set()
             self._ns.computed = set()
             self._ns.iteration_number = 0
+            # same defaults as __call__, for a thread that has not evaluated yet
+            self._ns.iterations = 100
+            self._ns.tolerance = 0.001
         return self._ns
 
     def __call__(self, iterations=100, tolerance=0.001):
